@@ -10,7 +10,7 @@ from ..report import Result
 
 NEEDS = ("dev",)
 EAB_KEY = "c2VjcmV0LWtleS1mb3ItZXh0ZXJuYWwtYWNjb3VudC1iaW5kaW5nLTAxMjM0NTY3ODk"
-REPLACEMENTS = ['"str"', "42", "true", "[1, 2]", '{ a = 1 }', '""', "0", "-1", "2147483648", "9223372036854775807", "18446744073709551616", "[]", "1.5"]
+REPLACEMENTS = ['"str"', "42", "true", "[1, 2]", '{ a = 1 }', '""', "0", "-1", "2147483648", "4294967295", "4294967296", "9223372036854775807", "18446744073709551616", "[]", "1.5"]
 
 
 def base_sections():
@@ -146,7 +146,7 @@ def hazards():
     add("include-glob-no-match", base, top=['include = ["nope-*.toml"]'])
     add("include-directory", base, top=['include = ["pki"]'])
     # rate limits
-    for number in ("0", "1", "9223372036854775807"):
+    for number in ("0", "1", "4294967295", "4294967296", "8589934592", "9223372036854775807"):
         for period in ("0s", "1s", "2s", "18446744073709551615s", "30500568904944w", "18446744073709551615s1s", "1x", ""):
             s = set_field(base, "[[rate-limit]]", "number", number)
             s = set_field(s, "[[rate-limit]]", "period", '"%s"' % period)
@@ -272,7 +272,7 @@ def release_runs(ctx, res, cases):
 
 def run(ctx):
     res = Result("exploration")
-    res.rule = ("(a) a configuration using every section and optional key, mutated field by field: delete, duplicate, unknown key, 13 replacement values (wrong types, empty, "
+    res.rule = ("(a) a configuration using every section and optional key, mutated field by field: delete, duplicate, unknown key, 15 replacement values (wrong types, empty, "
                 "0, -1, 2^31, 2^63-1, 2^64, float), whole sections dropped/duplicated, truncated/garbage/empty file; (b) hazard catalogue: hook-group cycles 1..3 (used or not), "
                 "include cycles 1..3, rate limits number x period incl. 0 and overflowing periods, overflowing/ill-formed periods at every level, identifier and template hazards; "
                 "each loaded by the real MainEventLoop::new and run until the first attempt ends (mock CA), worker crashes/timeouts are verdicts; thorough repeats (b) on the "
